@@ -334,12 +334,17 @@ type LoginOpts struct {
 	Icon            int
 	Version         []byte // non-nil: 1.5+ flow
 	Extra           []hlref.Field
+	Icon4           bool // send the icon as a 4-byte field (some third-party clients do)
 }
 
 func (o LoginOpts) Fields() []hlref.Field {
 	fs := []hlref.Field{hlref.F(hlref.FUserLogin, hlref.Obfuscate([]byte(o.Login))), hlref.F(hlref.FUserPassword, hlref.Obfuscate([]byte(o.Password)))}
 	if o.Name != nil {
-		fs = append(fs, hlref.F(hlref.FUserName, o.Name), hlref.F(hlref.FUserIconID, hlref.BE16(o.Icon)))
+		icon := hlref.BE16(o.Icon)
+		if o.Icon4 {
+			icon = hlref.BE32(o.Icon)
+		}
+		fs = append(fs, hlref.F(hlref.FUserName, o.Name), hlref.F(hlref.FUserIconID, icon))
 	}
 	if o.Version != nil {
 		fs = append(fs, hlref.F(hlref.FVersion, o.Version))
@@ -361,7 +366,16 @@ func (c *Conn) Login(o LoginOpts) *hlref.Tran {
 
 // Agreed sends transaction 121 (1.5+ flow).
 func (c *Conn) Agreed(name []byte, icon int, options int, autoReply []byte) *hlref.Tran {
-	fs := []hlref.Field{hlref.F(hlref.FUserName, name), hlref.F(hlref.FUserIconID, hlref.BE16(icon)), hlref.F(hlref.FOptions, hlref.BE16(options))}
+	return c.AgreedWide(name, icon, options, autoReply, false)
+}
+
+// AgreedWide is Agreed with the icon sent as a 4-byte field when wide is set.
+func (c *Conn) AgreedWide(name []byte, icon int, options int, autoReply []byte, wide bool) *hlref.Tran {
+	ic := hlref.BE16(icon)
+	if wide {
+		ic = hlref.BE32(icon)
+	}
+	fs := []hlref.Field{hlref.F(hlref.FUserName, name), hlref.F(hlref.FUserIconID, ic), hlref.F(hlref.FOptions, hlref.BE16(options))}
 	if autoReply != nil {
 		fs = append(fs, hlref.F(hlref.FAutomaticResponse, autoReply))
 	}
